@@ -30,9 +30,16 @@ def main():
     ap.add_argument("--no-tests", action="store_true")
     ap.add_argument("--others", action="store_true", help="also run the other properties' checks (false-alarm look)")
     ap.add_argument("--seeded", action="store_true", help="use /verif/seeded/*/patch.diff instead of /verif/mutants")
+    ap.add_argument("--refactors", action="store_true",
+                    help="use /verif/refactors/*/patch.diff: behaviour-preserving changes, EVERY check must stay quiet")
     ap.add_argument("--tier", default="quick")
+    ap.add_argument("--out", default="mutants-last.json")
     a = ap.parse_args()
-    if a.seeded:
+    if a.refactors:
+        a.others = True
+        items = [(os.path.basename(d), "C11", os.path.join(d, "patch.diff"))
+                 for d in sorted(glob.glob(os.path.join(VERIF, "refactors", "*")))]
+    elif a.seeded:
         items = []
         for d in sorted(glob.glob(os.path.join(VERIF, "seeded", "*"))):
             meta = json.load(open(os.path.join(d, "meta.json")))
@@ -41,7 +48,20 @@ def main():
         items = [(os.path.basename(p)[:-6], os.path.basename(p).split("-")[0], p)
                  for p in sorted(glob.glob(os.path.join(VERIF, "mutants", "*.patch")))]
     items = [it for it in items if a.only in it[0]]
+    # run from a snapshot of /verif, so that editing the engines while this (long) tool runs cannot mix versions
+    snap = tempfile.mkdtemp(prefix="snap-", dir=os.path.join(VERIF, "tmp"))
+    sh(["rsync", "-a", "--exclude", ".git", "--exclude", "tmp", "--exclude", "__pycache__", "--exclude", "replays",
+        "--exclude", "evidence", "--exclude", "seeded", "--exclude", "mutants", VERIF + "/", snap + "/"])
+    check_cmd = os.path.join(snap, "check")
     results = []
+    try:
+        _run_items(a, items, results, check_cmd)
+    finally:
+        shutil.rmtree(snap, ignore_errors=True)
+    json.dump(results, open(os.path.join(VERIF, "tmp", a.out), "w"), indent=1, default=str)
+
+
+def _run_items(a, items, results, check_cmd):
     for name, prop, patch in items:
         scratch = tempfile.mkdtemp(prefix=f"mut-{name}-", dir="/tmp")
         out = tempfile.mkdtemp(prefix=f"mutout-{name}-", dir="/tmp")
@@ -63,7 +83,7 @@ def main():
                 if a.runs:
                     env["VERIF_RUNS"] = str(a.runs)
                 t0 = time.time()
-                c = sh([os.path.join(VERIF, "check"), cid, "--tier", a.tier], env=env)
+                c = sh([check_cmd, cid, "--tier", a.tier], env=env)
                 viol = [ln for ln in c.stdout.splitlines() if ln.startswith("VIOLATION")]
                 detail = [ln for ln in c.stdout.splitlines() if "] run " in ln][:1]
                 row["checks"][cid] = {"rc": c.returncode, "violation": bool(viol), "wall_s": round(time.time() - t0, 1),
@@ -71,15 +91,19 @@ def main():
                                       "tail": c.stdout.strip().splitlines()[-1][:200] if c.returncode not in (0, 1) else ""}
             results.append(row)
             k = row["checks"][prop]
-            print(f"{name:45s} tests[{tests[:40]}] {prop}: rc={k['rc']} {'KILLED' if k['rc'] == 1 else 'MISSED'} "
-                  f"{k['wall_s']}s {k['detail'][:150]}", flush=True)
+            if a.refactors:
+                quiet = all(v["rc"] == 0 for v in row["checks"].values())
+                print(f"{name:45s} tests[{tests[:40]}] {'QUIET (all checks rc=0)' if quiet else 'FALSE-ALARM-OR-ERROR'}",
+                      flush=True)
+            else:
+                print(f"{name:45s} tests[{tests[:40]}] {prop}: rc={k['rc']} {'KILLED' if k['rc'] == 1 else 'MISSED'} "
+                      f"{k['wall_s']}s {k['detail'][:150]}", flush=True)
             for cid, k in row["checks"].items():
                 if cid != prop:
                     print(f"    other {cid}: rc={k['rc']} {k['detail'][:120]} {k['tail']}", flush=True)
         finally:
             shutil.rmtree(scratch, ignore_errors=True)
             shutil.rmtree(out, ignore_errors=True)
-    json.dump(results, open(os.path.join(VERIF, "tmp", "mutants-last.json"), "w"), indent=1, default=str)
 
 
 if __name__ == "__main__":
